@@ -1851,7 +1851,13 @@ func endParagraph(exp Exporter, pbreak ParagraphBreak) {
 	ctx := exp.Context()
 	if ctx.parScope {
 		processParagraph(exp)
-		exp.EndParagraph(pbreak)
+		if scopeVerse(exp) && ctx.verseScope {
+			// an open verse line ends with its stanza
+			exp.EndStanza()
+			ctx.verseScope = false
+		} else {
+			exp.EndParagraph(pbreak)
+		}
 	}
 }
 
